@@ -42,7 +42,7 @@ def pdf_value(shape, e1, e2, Q, par):
     raise ValueError(shape)
 
 
-def synth(outbase, nuclide, process, rng, n=None, shape=None, layout="test", quiet=True):
+def synth(outbase, nuclide, process, rng, n=None, shape=None, layout="test", quiet=True, emax_at_q=None):
     """Write <outbase>/data/dbd_gA/v1.0/<nuclide>/<process>/{tab_pdf.data,tab_ocdf.data} (+ truth.json).
     layout 'test':    E_min + E_max <= Q (as the shipped Test table)
     layout 'exceeds': E_min + E_max slightly above Q (as the documented real tables); c.d.f. file only."""
@@ -53,6 +53,10 @@ def synth(outbase, nuclide, process, rng, n=None, shape=None, layout="test", qui
     if layout == "test":
         emin = round(Q * (0.0005 + 0.08 * rng.uniform()), 6)
         emax = round(Q * (0.90 + 0.08 * rng.uniform()) - emin, 6)
+    elif emax_at_q or (emax_at_q is None and rng.uniform() < 0.3):
+        # the grid ends exactly at the maximum energy sum (a table sampled from E_min up to Q): the boundary case of the header rule
+        emin = round(Q * (0.002 + 0.004 * rng.uniform()), 6)
+        emax = Q
     elif rng.uniform() < 0.5:
         emin = round(Q * (0.002 + 0.004 * rng.uniform()), 6)
         emax = round(Q * 0.9995, 6)
